@@ -59,7 +59,7 @@ func (GCX) Generate(seed uint64, tier string) *core.Scenario {
 	case 2:
 		b.Flags = []string{"--full", "--archive-level", "0"}
 	}
-	for _, f := range []string{"branch", "tag", "deleted-branch", "stash", "conflicted-merge", "staged", "unstaged", "second-table"} {
+	for _, f := range []string{"branch", "tag", "deleted-branch", "stash", "conflicted-merge", "staged", "unstaged", "second-table", "early-gc", "tag-on-deleted-branch", "soft-reset"} {
 		if r.Chance(2, 3) {
 			b.History = append(b.History, f)
 		}
@@ -215,8 +215,14 @@ func gcFingerprint(ctx context.Context, s *Sess, db string) (string, error) {
 		}
 	}
 	sort.Strings(names)
-	if _, err := q("tags", fmt.Sprintf("SELECT tag_name, tag_hash FROM `%s`.dolt_tags", db), true); err != nil {
+	tags, err := q("tags", fmt.Sprintf("SELECT tag_name, tag_hash FROM `%s`.dolt_tags", db), true)
+	if err != nil {
 		return "", err
+	}
+	for _, tg := range tags {
+		if _, err := q("rows at tag "+tg[0], fmt.Sprintf("SELECT * FROM `%s`.t AS OF '%s'", db, tg[0]), true); err != nil {
+			return "", err
+		}
 	}
 	for _, br := range names {
 		rdb := db + "/" + br
@@ -352,6 +358,27 @@ func (GCX) Execute(t *testing.T, sc *core.Scenario) *core.Result {
 			}
 		}
 		st.End()
+	}
+	// data that an earlier collection has already moved to the old generation and that afterwards is
+	// kept alive by a tag, or by the staged root, only
+	if has["tag-on-deleted-branch"] && !must(setup, "CALL dolt_branch('gone2')", "CALL dolt_checkout('gone2')", "INSERT INTO t VALUES (60, 'kept by a tag only')",
+		"CALL dolt_commit('-Am', 'tagged')", "CALL dolt_tag('kept')", "CALL dolt_checkout('main')") {
+		return res
+	}
+	if has["soft-reset"] && !must(setup, "INSERT INTO t VALUES (70, 'kept by the staged root only')", "CALL dolt_commit('-Am', 'to be reset softly')") {
+		return res
+	}
+	if has["early-gc"] {
+		if !must(setup, "CALL dolt_gc()") {
+			return res
+		}
+		res.Fault("history:earlier-collection")
+	}
+	if has["tag-on-deleted-branch"] && !must(setup, "CALL dolt_branch('-D', 'gone2')") {
+		return res
+	}
+	if has["soft-reset"] && !must(setup, "CALL dolt_reset('--soft', 'HEAD~1')") {
+		return res
 	}
 	if has["staged"] && !must(setup, "INSERT INTO t VALUES (40, 'staged')", "CALL dolt_add('t')") {
 		return res
